@@ -36,7 +36,8 @@ pub struct Case {
     pub blocks: Vec<Blk>,
     pub trig_off: i16,
     pub trig_tag: u8,
-    /// 0 = entry().or_insert (RawTable::insert), 1 = insert (find_or_find_insert_slot), 2 = try_insert, 3 = reserve(Half) then insert
+    /// 0 = entry().or_insert (RawTable::insert), 1 = insert (find_or_find_insert_slot), 2 = try_insert, 3 = reserve(Half) then insert,
+    /// 4 = entry(stored key).and_replace_entry_with(None) then insert through the returned vacant entry
     pub via: u8,
 }
 
@@ -154,6 +155,14 @@ pub fn run_case(c: &Case) -> Result<Outcome, String> {
         0 => step(&mut sut, MapOp::Entry(id, EAct::OrInsert), u)?,
         1 => step(&mut sut, MapOp::Insert(id), u)?,
         2 => step(&mut sut, MapOp::TryInsert(id), u)?,
+        4 => {
+            // remove a stored element of the layout through its entry and re-insert through the vacant entry
+            // that the removal hands back (no lookup, no reservation in between)
+            match block_ids.iter().flatten().copied().filter(|&x| sut.mpos(x).is_some()).last() {
+                Some(victim) => step(&mut sut, MapOp::Entry(victim, EAct::AndReplaceNone), u)?,
+                None => step(&mut sut, MapOp::Entry(id, EAct::OrInsert), u)?,
+            }
+        }
         _ => {
             step(&mut sut, MapOp::Reserve(Res::Half), u)?;
             step(&mut sut, MapOp::Entry(id, EAct::Insert), u)?;
@@ -223,7 +232,7 @@ pub fn cases_with_tags(tier: Tier, tag2: u8) -> Vec<Case> {
                             _ => vec![*z, *x, *y],
                         };
                         for &(to, tt) in &trig {
-                            for via in 0..(if q { 2 } else { 4 }) {
+                            for via in if q { vec![0u8, 1, 4] } else { vec![0u8, 1, 2, 3, 4] } {
                                 out.push(Case { base, blocks: blocks.clone(), trig_off: to, trig_tag: tt, via });
                             }
                         }
